@@ -120,7 +120,7 @@ var outcomeRe = regexp.MustCompile(`(?m)^ZZ-OUTCOME (.*)$`)
 func (nb *nativeBuilder) run(replayPath string) Outcome {
 	ctx, cancel := context.WithTimeout(context.Background(), 120*time.Second)
 	defer cancel()
-	cmd := exec.CommandContext(ctx, nb.bin, "-test.run", "^TestZZReplay$", "-test.v", "-test.timeout", "100s")
+	cmd := exec.CommandContext(ctx, nb.bin, "-test.run", "^TestZZReplay$", "-test.v", "-test.timeout", "60s")
 	cmd.Dir = nb.workDir
 	cmd.Env = append(goEnv(), "ZZ_REPLAY="+replayPath)
 	var buf bytes.Buffer
